@@ -1,6 +1,6 @@
 """Signature-layer rule instances shared by C02 / C11 / C15 (DESIGN §5 S02-*, S15-4, S15-5)."""
 import re
-from rules.common import rdom, call_blocks, ok_exit_blocks, site, is_pure_forwarder, accept_edge
+from rules.common import rdom, call_blocks, ok_exit_blocks, site, is_pure_forwarder, accept_edge, err_exit_blocks
 from core import guard_switches, must_pass, fmt_path, has_origin
 
 SIG = 'packet::signature::types::Signature::'
@@ -577,6 +577,74 @@ def salt_fed_at_every_hasher(ctx, P):
         ctx.check('%s:salt-per-hasher:%s' % (P, p), 'R-sib', 'every signature hasher created in %s is fed the v6 salt on the V6 branch (one feed per new_hasher call)' % p.split('::')[-1],
                   len(salt) >= len(nh), function=p, count=len(salt), missing=None if len(salt) >= len(nh) else '%d hashers, %d salt feeds' % (len(nh), len(salt)))
     ctx.floor(P + ':salt-per-hasher:floor', 'functions creating signature hashers', n, 11)
+
+
+def salt_length_checked_where_hashed(ctx, P):
+    """RFC 9580 5.2.3: the salt size of a v6 signature MUST match the value defined for its hash algorithm.  The verify side refuses a
+    salt of another size; a signing interface that hashes whatever salt the configuration holds (`SignatureConfig::v6_with_salt` takes
+    any) produces a signature that no data-verification interface accepts.  As long as some verifier compares the length, every
+    SIGNING function that feeds the v6 salt to a hasher compares `hash_alg.salt_len()` with the salt's length on every way to Ok:
+    itself, through a function it calls (`hash_signature_data`), or - when it returns a hasher object - through every `sign*`
+    method of that object."""
+    from rules.common import direct_cmp_switches
+    own = set()
+    for p, r in sorted(ctx.f.bodies.items()):
+        if '::tests::' in p or r['kind'] == 'Closure':
+            continue
+        b = ctx.wrap(r)
+        sl = b.calls(r'HashAlgorithm::salt_len$')
+        if not sl:
+            continue
+        # the result of salt_len() reaches a comparison (PartialEq::eq / ne of Option<usize>, or a match on it)
+        lens = set()
+        for i, t in sl:
+            lens.add(t['d']['l'])
+        cmpc = [i for i, t in b.calls(r'cmp::PartialEq::(eq|ne)$|option::Option::<.*>::(is_some_and|is_none_or)$')
+                if any(has_origin(b.operand_origins(a), r'call:.*HashAlgorithm::salt_len$') for a in t['args'])]
+        sw = [i for i, t in b.switches() if has_origin(b.switch_origins(i), r'call:.*HashAlgorithm::salt_len$')]
+        if (cmpc or sw) and err_exit_blocks(b):
+            own.add(p)
+    checkers = set(own)
+    # one level of callers' callees: a function all of whose Ok exits pass a call to a checker is a checker for its callers too
+    n = 0
+    feeds = []
+    for p, r in sorted(ctx.f.bodies.items()):
+        if '::tests::' in p or r['kind'] == 'Closure' or p.startswith('types::s2k::'):
+            continue
+        b = ctx.wrap(r)
+        salt = [i for i, t in b.calls(r'DynDigest::update$|digest::Update::update$|Digest::update$')
+                if any(has_origin(b.operand_origins(a), r'field:(SignatureVersionSpecific|OpsVersionSpecific)::V6\.salt$') for a in t['args'][1:])]
+        if salt:
+            feeds.append((p, b, salt))
+
+    def passes_checker(b):
+        oks = ok_exit_blocks(b)
+        cb = [i for i, t in b.calls() if (t['f'].get('res') or t['f'].get('fn')) in checkers]
+        if b.path in own:
+            return True
+        if not cb or not oks:
+            return False
+        return must_pass(b, oks, cb)[0]
+    verify_side_checks = [p for p, b, salt in feeds if not p.startswith('packet::signature::config::SignatureConfig::') and passes_checker(b)]
+    for p, b, salt in feeds:
+        if not p.startswith('packet::signature::config::SignatureConfig::'):
+            continue        # a verifier that takes any salt length accepts more, which completeness does not forbid
+        n += 1
+        ok = passes_checker(b) or not verify_side_checks
+        how = 'own comparison' if p in own else 'through a callee'
+        if not ok:
+            # deferred: the function returns an object whose `sign*` methods run the check
+            adts = set(st['r']['v'] if False else (st['r'].get('adt') or '') for _, _, st in b.stmts(lambda st: st['r']['k'] == 'agg' and st['r'].get('ak') == 'adt'))
+            for adt in sorted(a for a in adts if a):
+                short = adt.split('::')[-1]
+                ms = [q for q in ctx.f.bodies if re.search(r'::%s::sign\w*$' % re.escape(short), q) and '::tests::' not in q]
+                if ms and all(passes_checker(ctx.wrap(ctx.f.bodies[q])) for q in ms):
+                    ok = True
+                    how = 'through %s' % ', '.join(m.split('::')[-2] + '::' + m.split('::')[-1] for m in ms)
+        ctx.check('%s:S06-9:salt-length-checked:%s' % (P, p), 'R-sib', '%s, which hashes the v6 salt, has the salt length compared with HashAlgorithm::salt_len() on every way to Ok' % p.split('::')[-1],
+                  ok, function=p, site=site(b, salt[0]), note=how if ok else None,
+                  missing=None if ok else 'the salt is hashed at %s but nothing on the way to Ok compares its length with the size the hash algorithm asks for: the sign and verify sides disagree on what they accept' % site(b, salt[0]))
+    ctx.floor(P + ':S06-9:floor', 'signing functions feeding the v6 salt to a hasher', n, 5)
 
 
 def natural_loop(b, h, dom=None):
